@@ -281,7 +281,18 @@ def pair_strategy():
 
     @st.composite
     def pair(draw):
-        mode = draw(st.sampled_from(["slices", "slices", "slices", "edit", "identical", "unrelated", "empty"]))
+        mode = draw(st.sampled_from(["slices", "slices", "slices", "edit", "identical", "unrelated", "empty", "aligned"]))
+        if mode == "aligned":
+            # blocks copied from base offsets with a zero byte inside their little-endian spelling (0x100, 0x200, ...): the
+            # copy opcode then has to *skip* an offset byte.  Incompressible base: a truncated offset copies other bytes.
+            b = pseudo(draw(st.integers(0, 7)), draw(st.sampled_from([600, 800, 1024])))  # Myers (debug Rust) is O((N+M)*D): keep N small
+            pieces = []
+            for _ in range(draw(st.integers(1, 4))):
+                off = 256 * draw(st.integers(1, max(1, (len(b) - 40) // 256)))
+                ln = draw(st.integers(24, 300))
+                pieces.append(draw(st.binary(max_size=12)))
+                pieces.append(b[off : off + ln])
+            return b, b"".join(pieces)
         b = draw(base if mode in ("edit", "identical", "empty") else modest)
         if mode == "identical":
             return b, b
@@ -318,6 +329,11 @@ def big_pairs(seed, shard, thorough):
     out = [(b, b[:pos] + b"<edit>" + b[pos + 3:])]
     if shard % 8 == 0:
         out.append((b, b))
+    if n >= 66000:
+        # a near-identical target (cheap for both encoders) whose second copy starts exactly at an offset >= 64 KiB with
+        # zero low / middle bytes: three-byte offsets with gaps
+        p = [0x10000, 0x10001, 0x10100, 0x10040][shard % 4] - 3
+        out.append((b, b[:p] + b"<edit>" + b[p + 3:]))
     if thorough:
         out.append((b, b[1000:] + b[:1000]))
     return out
